@@ -359,7 +359,8 @@ class ControlParser(ArgumentParser):
             long = f'--{parameter.name.replace("_", "-")}'
             # We try to generate a short version (flag) for the argument.
             letter = parameter.name[0]
-            if letter not in self._flags:
+            # The `-h` flag is always taken by the help option.
+            if letter not in self._flags and letter != "h":
                 flag = f"-{letter}"
                 self._flags.add(letter)
             elif letter.upper() not in self._flags:
